@@ -301,6 +301,13 @@ Theorem C13_background_renewal_outlives_its_handshake :
 Proof. split; [exact background_renewal_not_cancellable_early|exact background_worker_other_steps_not_cancellable]. Qed.
 Print Assumptions C13_background_renewal_outlives_its_handshake.
 
+(** every handshake ends with an error or a certificate, never with the empty certificate and a nil
+    error (C03's clause; clause of [Check.point_ok] on the implementation's positions) *)
+Theorem C13_no_handshake_returns_the_empty_certificate : forall s, reachable s ->
+  forall t th, thr s t = Some th -> t_pc th <> PDone REmpty.
+Proof. exact no_empty_result. Qed.
+Print Assumptions C13_no_handshake_returns_the_empty_certificate.
+
 (** the statement shapes of handshake.go that the LTS takes as atomic steps / literals are the
     ones in the source today (read by the translator on every run; a change breaks this proof) *)
 Theorem C13_source_shape_is_the_modelled_one :
